@@ -327,11 +327,12 @@ for _r in list(range(NROWS)) + [-1]:
                        'self.i_step', 'self.i_offset', 'self.exclusions'],
              # the regexes applied to group texts are uninterpreted predicates here: what the
              # code needs from them is stated in _SHAPE (requires) instead
-             # (row 0, Rn/START/END with its division: the strict variant does not finish within the
-             # per-function budget - 74 paths in an hour - and is not run; its one strict-only deviation,
-             # START == END with n > 1 giving a zero step, is noted in DESIGN 11.5)
-             options={'regex': 'uninterp', 'feas_timeout_ms': 500,
-                      'strict_tier': 'never' if _r == 0 else 'thorough',
+             # The strict variants (without the `domain` clause) of the eleven rows are NOT run any more:
+             # twelve extra heavy functions explored in parallel made the thorough command's own verdicts
+             # unstable (DESIGN 11.5, correction 14).  What they demonstrated - a one-off point outside
+             # [initial, final] is kept (IntegerSequence('R1/0','5','9') has point 0); START == END with
+             # n > 1 gives a zero step - is recorded in DESIGN 11.5 with the replayed inputs.
+             options={'regex': 'uninterp', 'feas_timeout_ms': 500, 'strict_tier': 'never',
                       'weight': 10},
              watch=[f'grp({_r}, 0, {_E})', f'grp({_r}, 1, {_E})', f'grp({_r}, 2, {_E})',
                     f'grp({_r}, 3, {_E})', f'nreps({_r}, {_E})', f'kval({_r}, {_E})',
